@@ -174,4 +174,6 @@ class StlAstParserVisitor(LtlAstParserVisitor, StlParserVisitor):
 
     @unit.setter
     def unit(self, unit):
+        if unit not in self.U:
+            raise RTAMTException('{} is not a time unit (use one of {})'.format(unit, ', '.join(sorted(self.U))))
         self.__unit = unit
